@@ -25,6 +25,9 @@ Null == [t |-> "null"]
 Nil == [t |-> "nil"]
 Str(s) == [t |-> "str", s |-> s]
 IntV(n) == [t |-> "int", n |-> n]
+\* numbers and instants are opaque canonical texts (shortest round-trip decimal; RFC 3339 UTC)
+NumT(x) == [t |-> "num", x |-> x]
+TimeT(x) == [t |-> "time", x |-> x]
 Arr(v) == [t |-> "arr", v |-> v]
 Obj(m) == [t |-> "obj", m |-> m]
 
@@ -39,7 +42,7 @@ Delims(c) ==
 CoreStr(c, v) == v.t = "str" /\ v.s # <<>> /\ \A i \in 1..Len(v.s) : v.s[i] \notin Delims(c)
 \* the core domain of a row: always delivered
 Core(c, v) ==
-  CASE v.t = "int" -> TRUE
+  CASE v.t \in {"int", "num", "time"} -> TRUE      \* finite numbers, times at the format's resolution
     [] v.t = "str" -> CoreStr(c, v)
     [] v.t = "arr" -> v.v # <<>> /\ \A i \in 1..Len(v.v) : CoreStr(c, v.v[i])
     [] v.t = "obj" -> (\E i \in 1..Len(v.m) : v.m[i] # Absent) /\ \A i \in 1..Len(v.m) : v.m[i] = Absent \/ CoreStr(c, v.m[i])
@@ -68,6 +71,12 @@ ParamOK(c, group, sent, outcome, got, mwgot) ==
 Collides(v) == v \in {Absent, Nil} \/ (v.t = "arr" /\ (v.v = <<>> \/ v.v = <<Str(<<>>)>>))
 ImplEmptyArray(c, sent, outcome, got) == c.shape = "arr" /\ Joined(c) /\ outcome = "ok" /\ sent.t = "arr" /\ Collides(sent) /\ Collides(got)
 
+\* Dev_HeaderValueTrimmed: an HTTP field value cannot carry leading or trailing blanks
+\* (net/http strips them); the header encoder does not refuse such a text
+Blank(x) == x \in {32, 9}
+Trim(s) == IF s # <<>> /\ Blank(s[1]) THEN SubSeq(s, 2, Len(s)) ELSE IF s # <<>> /\ Blank(s[Len(s)]) THEN SubSeq(s, 1, Len(s) - 1) ELSE s
+ImplHeaderTrim(c, sent, outcome, got) == c.loc = "header" /\ c.shape = "prim" /\ outcome = "ok" /\ sent.t = "str" /\ got.t = "str" /\ got.s # sent.s /\ got.s = Trim(sent.s)
+
 (***************************** bodies: abstract ****************************)
 \* Body = {n: integer (required), s: string default "sd", on: nullable string, l: [integer]}
 BodyExpected(b) == [b EXCEPT !.m[2] = IF b.m[2] = Absent THEN Str(<<115, 100>>) ELSE b.m[2]]
@@ -77,13 +86,15 @@ BodyOK(sent, outcome, got, mwgot) ==
 
 (**************************** responses: abstract **************************)
 \* declared responses of the response operation: 200 (header + body), 201 (no content),
-\* 4XX (body + status code), default (body + status code)
+\* 4XX (header + body + status code), default (header + body + status code)
 Variants == {"ok200", "created201", "pat4XX", "default"}
 HasCode(v) == v \in {"pat4XX", "default"}
 \* can the declared responses carry <<variant, code>>?
+\* (a coded variant has a body: informational codes, 204 and 304 cannot carry one)
+NoBodyCode(k) == (k >= 100 /\ k <= 199) \/ k \in {204, 304}
 Carriable(v, k) ==
   CASE v = "pat4XX" -> k >= 400 /\ k <= 499
-    [] v = "default" -> k >= 100 /\ k <= 599 /\ k \notin {200, 201} /\ ~(k >= 400 /\ k <= 499)
+    [] v = "default" -> k >= 100 /\ k <= 599 /\ k \notin {200, 201} /\ ~(k >= 400 /\ k <= 499) /\ ~NoBodyCode(k)
     [] OTHER -> TRUE
 \* the caller's view: outcome "ok" with <<variant', code', payload'>> or an error
 RespOK(v, k, payload, outcome, v2, k2, payload2) ==
@@ -102,5 +113,6 @@ Pick(status) ==
 \* Dev_ResponseCodeUnchecked: the server writes whatever StatusCode the handler put into a
 \* coded variant (0 is written as 200 by net/http), and the client picks the variant by
 \* the status it reads: an uncarriable <<variant, code>> arrives as another variant
-ImplResp(v, k) == LET w == IF HasCode(v) /\ k = 0 THEN 200 ELSE Wire(v, k) IN <<Pick(w), w>>
+\* (net/http sends an informational code as an interim response; the final one is then 200)
+ImplResp(v, k) == LET w == IF HasCode(v) /\ (k = 0 \/ (k >= 100 /\ k <= 199)) THEN 200 ELSE Wire(v, k) IN <<Pick(w), w>>
 =============================================================================
